@@ -330,7 +330,8 @@ class SimTransport:
     # -- events
     def can_deliver(self):
         p = self.peer
-        return bool(self.outq) and not self.blackhole and not self.broken and not p.lost and not p.read_paused
+        return bool(self.outq) and not self.blackhole and not self.broken and not p.lost and not p.read_paused \
+            and self.owner not in self.link.net.silent_nodes
 
     def deliver(self, n=None):
         p = self.peer
@@ -507,6 +508,7 @@ class SimNetwork:
         self.bufsize = 1 << 16
         self._seq = 0
         self.names = {}      # hostname -> fake ip handed out by the resolver
+        self.silent_nodes = set()   # nodes whose outgoing TCP bytes are black-holed (links stay up)
 
     def next_seq(self):
         self._seq += 1
